@@ -83,6 +83,23 @@ class _SpecModule:
 def make_param(eng, st, name, ann, override=None):
     if override is not None:
         kind = override
+        if not isinstance(kind, str):
+            return kind          # concrete structural value
+        if kind.startswith('obj:'):
+            rel, cname = kind[4:].split('::')
+            o = Obj((rel, cname))
+            st.objs[o.oid] = {}
+            return o
+        if kind.startswith('list') and kind.endswith('arr1'):
+            n = int(kind[4:-4])
+            out = []
+            for k in range(n):
+                sh = z3.Int('%s_%d_n0' % (name, k))
+                st.pc.append(sh >= 0)
+                out.append(eng.new_arr(st, 1, [sh], REAL, '%s_%d' % (name, k)))
+            return out
+        if kind == 'str':
+            return name
         if kind == 'int':
             return z3.Int(name)
         if kind in ('float', 'real'):
@@ -163,8 +180,9 @@ def default_modifies(node, c):
     return out
 
 
-def verify_function(ctx, relpath, qual, canary=True):
-    """Symbolically execute one function against its contract; obligations go to ctx.obligations."""
+def verify_function(ctx, relpath, qual, canary=True, struct=None, label=None):
+    """Symbolically execute one function against its contract; obligations go to ctx.obligations.
+    struct: structural case (parameter name -> concrete value or sort spec) overriding the contract's params."""
     eng = ctx.engine
     mod = load_module(relpath, ctx.repo)
     if qual not in mod.functions:
@@ -181,9 +199,12 @@ def verify_function(ctx, relpath, qual, canary=True):
         if a.arg in c.funparams:
             st.env[a.arg] = FunVal('param', a.arg, c.funparams[a.arg])
             continue
-        st.env[a.arg] = make_param(eng, st, a.arg, ann_text(a), c.params.get(a.arg))
+        ov = (struct or {}).get(a.arg, c.params.get(a.arg))
+        st.env[a.arg] = make_param(eng, st, a.arg, ann_text(a), ov)
     nob0 = len(ctx.obligations)
-    report = dict(function=relpath + '::' + qual, hash=mod.fhash(qual), paths=0, returns=0, raises=0,
+    if label:
+        fr.case_label = label
+    report = dict(function=relpath + '::' + qual + (' [%s]' % label if label else ''), hash=mod.fhash(qual), paths=0, returns=0, raises=0,
                   pre_satisfiable=None, canary_refuted=None, out_of_reach=None)
     # requires
     fr.entry = st.fork()
@@ -210,11 +231,14 @@ def verify_function(ctx, relpath, qual, canary=True):
             post = s.fork()
             post.env = penv
             post.env['result'] = s.retval
+            canary_states.append(post.fork())
             fr.spec_only = True
             for i, cl in enumerate(c.ensures):
                 f = eng.ev_clause(cl, post, fr)
                 eng.prove(post, fr, 'post', f, node, clause='ensures[%d]: %s' % (i, cl),
                           name='%s:post[%d]@ret%d' % (fr.fname, i, report['returns']))
+                # sequential cut: later clauses may use the earlier ones (each has its own obligation)
+                post.assume(f)
             for (exc, when) in c.raises:
                 if when is None:
                     continue
@@ -232,7 +256,6 @@ def verify_function(ctx, relpath, qual, canary=True):
                         ks = [fresh('fr') for _ in range(v0.rank)]
                         eng.prove(post, fr, 'frame', z3.Select(t0, *ks) == z3.Select(t1, *ks), node,
                                   clause='%s is not in modifies' % a.arg)
-            canary_states.append(post)
         elif s.status == 'raise':
             report['raises'] += 1
             name, lineno = s.exc
